@@ -62,6 +62,25 @@ func c18Machine(seed uint64, budget int, lg *caseLog) c18Report {
 		return rep
 	}
 	w.ResultHook = nil
+	// the reinitialisation operation of a fresh machine (same mnemonic) is attacked as well
+	var reinitOps []recordedOp
+	if re, _, err := ReinitFrom(ce, seed+5, nil, world.EagerPolicy); err == nil {
+		for i, nd := range re.W.Nodes {
+			bz, _ := nd.State.Get(world.Topic + "_deleted_operations")
+			var ops map[string]*types.Operation
+			_ = json.Unmarshal(bz, &ops)
+			for _, o := range ops {
+				if string(o.Type) == EvReinit {
+					req := *o
+					req.Event, req.ResultMsgs, req.ExtraData = "", nil, nil
+					reinitOps = append(reinitOps, recordedOp{i, req})
+				}
+			}
+		}
+		re.Close()
+	} else {
+		rep.Notes = append(rep.Notes, "reinit for the machine part: "+err.Error())
+	}
 	r := sched.Derive(seed, 182)
 	distinct := map[string]bool{}
 	seenFinding := map[string]bool{}
@@ -184,6 +203,50 @@ func c18Machine(seed uint64, budget int, lg *caseLog) c18Report {
 			}
 		}
 		if clone != nil {
+			clone.CloseHandles()
+		}
+	}
+	for _, rc := range reinitOps {
+		if rc.Machine != mi {
+			continue
+		}
+		for _, jm := range mutateJSON(rc.Op.Payload, r, budget) {
+			o := rc.Op
+			o.Payload = jm.Data
+			clone, cdir, err := buildClone(mi, 0)
+			if err != nil {
+				break
+			}
+			lg.begin("machine reinit " + jm.Label)
+			rep.Cases++
+			before, _ := world.DumpLevelDB(cdir)
+			var pan interface{}
+			var stack string
+			var perr error
+			func() {
+				defer func() {
+					if x := recover(); x != nil {
+						pan = x
+						stack = string(debug.Stack())
+					}
+				}()
+				_, perr = clone.Cold.ProcessOperation(o, true)
+			}()
+			cls := jm.Label
+			if i := strings.Index(cls, ":"); i > 0 {
+				cls = cls[:i]
+			}
+			distinct["machine|reinit_dkg|"+cls] = true
+			wit := map[string]interface{}{"operation_type": "reinit_dkg", "mutation": jm.Label, "payload": trunc(string(jm.Data), 300)}
+			if pan != nil {
+				wit["stack"] = trunc(stack, 1800)
+				report("C18/panic-in-Machine.ProcessOperation:"+topRepoFrame(stack), fmt.Sprintf("Machine.ProcessOperation panicked on %s of a reinit operation: %v", jm.Label, pan), wit)
+			} else if perr != nil {
+				after, _ := world.DumpLevelDB(cdir)
+				if diff := world.DiffMaps(before, after); len(diff) > 0 {
+					report("C18/rejected-operation-changed-machine-database", fmt.Sprintf("ProcessOperation returned an error for %s of reinit_dkg but the machine database changed: %v", jm.Label, diff), wit)
+				}
+			}
 			clone.CloseHandles()
 		}
 	}
